@@ -23,7 +23,10 @@ from . import prepsim, tlc, tracecheck
 from .core import Violation
 from .tlaparse import parse_value, to_json
 
-CLAUSES = {"PrepFaultReported", "PrepNeverSuccess", "PrepNoResults", "PrepCompleteOnlyWhenAllDone"}
+CLAUSES = {"PrepFaultReported", "PrepNeverSuccess", "PrepNoResults"}
+# evaluated on every trace but stronger than C09's wording (preparation is declared complete only when every task on every host
+# finished, once): a failure is conformance drift, not a violation of C09
+BEYOND = {"PrepCompleteOnlyWhenAllDone"}
 KINDS = ["task", "seed", "plugin", "close"]
 REQ = [1] * prepsim.REQUIRED
 
@@ -167,6 +170,9 @@ def run_jobs(ctx, out, jobs, label):
     for tid, fails in v.l1.items():
         job, trace = index[tid]
         mine = sorted({c for _, cl in fails for c in cl if c in CLAUSES})
+        beyond = sorted({c for _, cl in fails for c in cl if c in BEYOND})
+        if beyond and not mine:
+            out.drift.append("prep trace %s: %s does not hold (stronger than C09: not a violation) (scenario %s)" % (tid, ",".join(beyond), dict(job["prep"])))
         if not mine:
             continue
         bad.add(tid)
